@@ -103,12 +103,13 @@ func (t *Directive) Validate(root *Root) (errs []error) {
 		errs = append(errs, validateName(a.core, "argument", a.N, a.line, a.col)...)
 		if co, _ := a.Type.(InCoercer); co != nil && IsInputType(a.Type) {
 			if a.Default != nil {
-				if v, err := co.CoerceIn(a.Default); err != nil {
+				if v, err := co.CoerceIn(copyValue(a.Default)); err != nil {
 					errs = append(errs, fmt.Errorf("%w at %d:%d", err, a.line, a.col))
 				} else {
 					// Might as well replace the coerced value since it is really
 					// what is needed.
-					a.Default = v
+					a := a
+					root.coerced = append(root.coerced, func() { a.Default = v })
 				}
 			}
 		} else {
